@@ -28,6 +28,8 @@ var c20fields = []c20field{
 	{"top(x, 2)", "", 0, false}, {"top(x, y, 2)", "", 1, false}, {"top(x, y, x_1, 2)", "", 2, false}, {"bottom(x, y, 2)", "", 1, false},
 	{"top(x, y, 2) AS x", "x", 1, false}, {"mean(x) AS mean_1", "mean_1", 0, false}, {"x AS x_2", "x_2", 0, false},
 	{"(top(x, y, 2))", "", 0, false}, {"(x + y) * x_1", "", 0, false}, {"x_2", "", 0, false},
+	{"x AS x_3", "x_3", 0, false}, {"x AS x_4", "x_4", 0, false}, {"x AS x_5", "x_5", 0, false}, {"x AS x_6", "x_6", 0, false}, {"x AS x_7", "x_7", 0, false},
+	{"x AS x_8", "x_8", 0, false}, {"x AS x_9", "x_9", 0, false}, {"1 + 2", "", 0, false}, {"(3 * 4)", "", 0, false},
 }
 
 var c20core = []int{0, 1, 2, 3, 4, 5, 6, 7, 15, 16, 18, 22, 23, 26}
@@ -106,14 +108,15 @@ func c20eval(c c20Case) []ev.Finding {
 	// expected layout from the statement as it is now (after the mode's rewrite)
 	type slot struct {
 		alias string
+		base  string // the name the column has when nothing clashes
 	}
 	var slots []slot
 	for _, f := range sel.Fields {
-		slots = append(slots, slot{f.Alias})
+		slots = append(slots, slot{f.Alias, f.Name()})
 		if call, ok := f.Expr.(*influxql.Call); ok && !c.Into && (call.Name == "top" || call.Name == "bottom") && len(call.Args) > 1 {
 			for _, a := range call.Args[1:] {
-				if _, ok := a.(*influxql.VarRef); ok {
-					slots = append(slots, slot{""})
+				if v, ok := a.(*influxql.VarRef); ok {
+					slots = append(slots, slot{"", v.Val})
 				}
 			}
 		}
@@ -157,6 +160,27 @@ func c20eval(c c20Case) []ev.Finding {
 			if cols[i+off] != s.alias {
 				rep("alias-not-verbatim", fmt.Sprintf("column %d should be the alias %q", i+off, s.alias))
 			}
+		}
+	}
+	// a generated name is the plain name or the plain name with a numeric suffix: "_" and a decimal number
+	for i, sl := range slots {
+		if sl.alias != "" || i+off >= len(cols) {
+			continue
+		}
+		name := cols[i+off]
+		if name == sl.base {
+			continue
+		}
+		rest := strings.TrimPrefix(name, sl.base+"_")
+		okForm := rest != name && rest != "" && (rest == "0" || rest[0] != '0')
+		for _, ch := range rest {
+			if ch < '0' || ch > '9' {
+				okForm = false
+			}
+		}
+		if !okForm {
+			rep("suffix-form", fmt.Sprintf("column %d is %q; the field's own name is %q, so it must be that or %q plus a decimal number", i+off, name, sl.base, sl.base+"_"))
+			break
 		}
 	}
 	distinctAliases := true
@@ -238,7 +262,7 @@ func c20run(r *ev.Run) {
 			}
 		})
 	}
-	all := make([]int, len(c20fields))
+	all := make([]int, 27) // the last fields only serve the long lists below
 	for i := range all {
 		all[i] = i
 	}
@@ -247,6 +271,26 @@ func c20run(r *ev.Run) {
 	}
 	for L := maxLen + 1; L <= coreLen; L++ {
 		enum(c20core, L, 0)
+	}
+	// long lists: the suffix search has to pass 9 -> 10 and 99 -> 100, with the lower suffixes taken by repeats or by
+	// aliases; nameless fields (arithmetic over literals) repeated
+	var long [][]int
+	for _, n := range []int{11, 12, 101} {
+		l := make([]int, n)
+		long = append(long, l) // n times x
+		l2 := make([]int, n)
+		for i := range l2 {
+			l2[i] = 6 // n times mean(x)
+		}
+		long = append(long, l2)
+	}
+	long = append(long, []int{0, 3, 23, 27, 28, 29, 30, 31, 32, 33, 0, 0}, []int{34, 35, 34, 13}, []int{34, 34, 34, 34, 34, 34, 34, 34, 34, 34, 34, 34})
+	for _, l := range long {
+		for _, into := range []bool{false, true} {
+			for mode := 0; mode < 5; mode++ {
+				run(c20Case{Fields: l, Into: into, Mode: mode})
+			}
+		}
 	}
 	r.Set("field_alphabet", len(c20fields))
 	r.Set("core_alphabet", len(c20core))
